@@ -233,16 +233,17 @@ template <typename C> struct scripted_cb
     int rank;
     int own;      // state of the callback object itself: the integrator invokes the object it was given, every time
     scripted_cb(int s, int* c, int r) : stop_at(s), count(c), rank(r), own(0) {}
-    bool operator()(C const& c)
+    // the answer is a count (iterations this callback still wants to see; zero = stop): anything that converts to true means "go on"
+    int operator()(C const& c)
     {
         ++*count;
         ++own;
         bool ret = own != stop_at;
         // want: what an object that has seen every invocation of this run answers (the driver's count is shared by all copies)
         ev("Callback").i("rank", rank).i("n", (long long) c.results().size()).i("ret", ret ? 1 : 0).s("cls", "user").i("want", *count != stop_at ? 1 : 0).emit();
-        return ret;
+        return ret ? (stop_at > own ? stop_at - own : own + 1) : 0;
     }
-    bool operator()(MPI_Comm, C const& c) { return (*this)(c); }
+    int operator()(MPI_Comm, C const& c) { return (*this)(c); }
 };
 // the built-in callback, wrapped only to observe its argument and its answer
 template <typename T, typename C> struct observed_builtin
